@@ -57,6 +57,7 @@ class Engine:
         self.method_models = {}
         self.current_target = None
         self.str_to_int_hook = None
+        self.after_call = {}  # (caller qualname, callee name) -> ghost statement fn(c, frame, result)
 
     # ------------------------------------------------------------------ registry
     def add(self, contract):
@@ -93,6 +94,15 @@ class Engine:
 
     # ------------------------------------------------------------------ calls
     def dispatch_call(self, c, fn, args, kwargs, node):
+        r = self._dispatch_call(c, fn, args, kwargs, node)
+        if self.after_call and c.frames:
+            nm = getattr(fn, "name", None) or getattr(fn, "__name__", None) or getattr(getattr(fn, "node", None), "name", None)
+            h = self.after_call.get((c.frames[-1].qual, nm))
+            if h:
+                h(c, c.frames[-1], r)
+        return r
+
+    def _dispatch_call(self, c, fn, args, kwargs, node):
         I = self.interp
         if isinstance(fn, Closure):
             key = f"{fn.frame.module.__name__}:{fn.qual}"
@@ -106,7 +116,7 @@ class Engine:
         if isinstance(fn, BoundMethod):
             if isinstance(fn.func, str):  # external method
                 return self.call_ext(c, fn.self_, fn.func, args, kwargs, node)
-            return self.dispatch_call(c, fn.func, [fn.self_] + list(args), kwargs, node)
+            return self._dispatch_call(c, fn.func, [fn.self_] + list(args), kwargs, node)
         if isinstance(fn, ValMethod):
             return self.call_value_method(c, fn.val, fn.name, args, kwargs, node)
         if isinstance(fn, Ext):
